@@ -403,6 +403,8 @@ def run_check(prop_name, tier, replay=None, digests=None, quiet=False, runs_over
 
     print('VERIF_SEED=%d property=%s tier=%s repo=%s' % (seed, prop.ID, tier, os.environ.get('VERIF_REPO', '/repo')))
     n_runs = int(os.environ.get('VERIF_RUNS', '0')) or runs_override or prop.RUNS[tier]
+    if os.environ.get('VERIF_RUNS_SCALE'):      # used by the mutation tool only
+        n_runs = max(8, int(n_runs * float(os.environ['VERIF_RUNS_SCALE'])))
     budget = float(os.environ.get('VERIF_BUDGET_S', '0')) or (150.0 if tier == 'quick' else 3600.0)
     deadline = t0 + budget
     W = workers or int(os.environ.get('VERIF_WORKERS', '0')) or min(16, os.cpu_count() or 1)
